@@ -108,6 +108,25 @@ def do_read(fmt, path, np):
     return out
 
 
+def second_generation(fmt, path, a, dx, wvl, np):
+    """Write, read back, re-calibrate the object that came back to a new spacing, write again.  Returns the new dx."""
+    from prysm import io as pio
+    do_write(fmt, path, a, dx, wvl, np)
+    new_dx = dx * 3.0
+    if fmt == 'igram':
+        from prysm.interferogram import Interferogram
+        i = Interferogram.from_zygo_dat(path)
+        i.latcal(new_dx)
+        i.save_zygo_dat(path)
+    elif fmt == 'zygo':
+        d = pio.read_zygo_dat(path)
+        pio.write_zygo_dat(path, d['phase'], new_dx, wavelength=d['meta']['wavelength'] * 1e6)
+    else:
+        b, meta = pio.read_codev_gridint(path)
+        pio.write_codev_gridint(b, path)
+    return new_dx
+
+
 def do_write(fmt, path, a, dx, wvl, np):
     from prysm import io as pio
     if fmt == 'zygo':
@@ -137,7 +156,12 @@ def replay(rec, ctx, np, tmp, classes, fmts):
             site = {'zygo': 'write_zygo_dat->read_zygo_dat', 'igram': 'Interferogram.save_zygo_dat->from_zygo_dat', 'codev': 'write_codev_gridint->read_codev_gridint'}[fmt]
             shp_cls = 'sq' if shape[0] == shape[1] else ('1xN' if shape[0] == 1 else ('Nx1' if shape[1] == 1 else 'nonsq'))
             try:
-                do_write(fmt, path, a, dx, wvl, np)
+                if rec.get('gen', 1) == 2:
+                    dx = second_generation(fmt, path, a, dx, wvl, np)
+                    if intact:
+                        site += ':resaved'
+                else:
+                    do_write(fmt, path, a, dx, wvl, np)
             except Exception as ex:
                 ctx.fail('File:%s:write-raised:%s:%s' % (site, cls, shp_cls), 'shape=%s invalid=%s: %s: %s' % (shape, invalid, type(ex).__name__, ex), rec)
                 ctx.replayed(1, key=(fmt, shape, tuple(invalid), cls, keep, partial))
@@ -171,7 +195,7 @@ def replay(rec, ctx, np, tmp, classes, fmts):
                         step = step_of(fmt, path, amax, np) if v.any() else 1.0
                         if step is None:
                             msgs.append(('step', 'the file declares a quantisation step beyond the format range'))
-                        elif v.any() and float(np.abs(b[v] - a[v]).max()) > step * 1.0001 + 1e-12 * amax:
+                        elif v.any() and float(np.abs(b[v] - a[v]).max()) > rec.get('gen', 1) * step * 1.0001 + 1e-12 * amax:   # one step per quantisation
                             # orientation error or scale error?  distinct values tell them apart
                             kind = 'orientation' if cls != 'constant' and any(
                                 np.allclose(np.nan_to_num(t), np.nan_to_num(a), atol=step * 1.0001 + 1e-12 * amax)
